@@ -69,12 +69,12 @@ func init() {
 }
 
 type vleaf struct {
-	kind   string // status | header | method | url | querystring | failure | pingback
-	tag    string // unique token that appears in this leaf's messages
-	want   string
-	scope  []string
+	kind     string // status | header | method | url | querystring | failure | pingback
+	tag      string // unique token that appears in this leaf's messages
+	want     string
+	scope    []string
 	hasScope bool
-	branch string // then | else | group (position under the nearest filter)
+	branch   string // then | else | group (position under the nearest filter)
 }
 
 // c13Node extends the tree with verifier leaves.
